@@ -110,7 +110,7 @@ def case_exp_log(H, g):
         ty, qy, sy = parts(g, y)
         to = 20 if H.quick else 150
         key = 'C02/%s/Exp(Log)' % g
-        from .jac import small_regime
+        from .jac import small_regime_deep as small_regime
         small = small_regime(ctx)
         tol = z3.RealVal('1/100000000000000')
         Ry, Rx = T.flat(T.quat_rot(qy)), T.flat(T.quat_rot(q))
@@ -171,7 +171,7 @@ def case_log_exp(H, g):
         ta, ph, sg = aparts(g, as_)
         to = 20 if H.quick else 150
         key = 'C02/%s/Log(Exp)' % g
-        from .jac import small_regime
+        from .jac import small_regime_deep as small_regime
         small = small_regime(ctx)
         tol = z3.RealVal('1/100000000000000')
         rot = []
